@@ -313,7 +313,10 @@ def is_tabular(spec):
         if items and all(x[0] == 'dict' and all(scalar(v) for _, v in x[1]) for x in items):
             return len(set(tuple(k for k, _ in x[1]) for x in items)) == 1
         if items and all(x[0] in ('list', 'tuple') and x[1] and all(scalar(v) for v in x[1]) for x in items):
-            return True
+            # O10: the third-party builder pads short rows in place (row.extend) and therefore rejects ragged data whose
+            # short rows are tuples; such values are not tabular for it
+            width = max(len(x[1]) for x in items)
+            return not any(x[0] == 'tuple' and len(x[1]) < width for x in items)
     return False
 
 
